@@ -4,6 +4,7 @@ import (
 	"bytes"
 	stdjson "encoding/json"
 	"fmt"
+	"io"
 	"os"
 	"path/filepath"
 	"runtime"
@@ -266,6 +267,24 @@ func c03Mutate(c *fw.Ctx, corpus [][]byte) []byte {
 	return x
 }
 
+// c03LimitSetter hands out its bytes and calls SetLimit while doing so.
+type c03LimitSetter struct {
+	b   []byte
+	pos int
+	to  uint32
+}
+
+func (l *c03LimitSetter) Read(p []byte) (int, error) {
+	if l.pos >= len(l.b) {
+		mimetype.SetLimit(l.to)
+		return 0, io.EOF
+	}
+	n := copy(p, l.b[l.pos:])
+	l.pos += n
+	mimetype.SetLimit(l.to)
+	return n, nil
+}
+
 // c03ConcurrentLimit: one goroutine detects (detector calls recorded), another
 // keeps changing the limit. Every detector of one walk must be given the same
 // (header, limit), and the header must be the first `limit` bytes for THAT limit.
@@ -300,7 +319,16 @@ func c03ConcurrentLimit(c *fw.Ctx, rounds int) {
 		key := fw.InputKey(x, 0, "Detect/concurrent-SetLimit")
 		pl := c03Payload{In: x, Entry: "concurrent-limit", InQ: fw.Quote(x, 60)}
 		var m *mimetype.MIME
-		if !c.Guard(key, func() any { return pl }, func() { m = mimetype.Detect(x) }) {
+		if !c.Guard(key, func() any { return pl }, func() {
+			switch it % 4 {
+			case 1: // the reader path: one limit for the read AND for the walk
+				m, _ = mimetype.DetectReader(&oddChunks{b: x})
+			case 2: // deterministic: the reader itself changes the limit between the read and the walk
+				m, _ = mimetype.DetectReader(&c03LimitSetter{b: x, to: []uint32{0, 64, 100000, 4096}[(it/4)%4]})
+			default:
+				m = mimetype.Detect(x)
+			}
+		}) {
 			continue
 		}
 		_ = m
